@@ -77,6 +77,13 @@ Proof. intros E. apply nth_error_Some. congruence. Qed.
 Lemma nth_error_snoc {A} (l : list A) v : nth_error (l ++ [v]) (length l) = Some v.
 Proof. rewrite nth_error_app2 by lia. rewrite Nat.sub_diag. reflexivity. Qed.
 
+Lemma valid_fields_mono s s' fs :
+  (length (sb s) <= length (sb s'))%nat -> valid_fields s fs = true -> valid_fields s' fs = true.
+Proof.
+  unfold valid_fields. intros Hl H. rewrite forallb_forall in *. intros p Hp.
+  specialize (H p Hp). apply Nat.ltb_lt in H. apply Nat.ltb_lt. lia.
+Qed.
+
 Lemma Forall_upd {A} (P : A -> Prop) l n v : Forall P l -> P v -> Forall P (upd l n v).
 Proof.
   intros HF Hv; revert n; induction HF; intros [|n]; cbn; constructor; auto.
@@ -136,7 +143,8 @@ Section Sep.
 
   Definition good (s : store) : Prop :=
     (nB <= length (sb s))%nat /\ (nT <= length (st s))%nat /\
-    forall t x, (nT <= t)%nat -> nth_error (st s) t = Some x -> own x.
+    (forall t x, (nT <= t)%nat -> nth_error (st s) t = Some x -> own x) /\
+    (forall t x, (nT <= t)%nat -> nth_error (st s) t = Some x -> valid_fields s (tf x) = true).
 
   Definition frame (s s' : store) : Prop :=
     firstn nB (sb s') = firstn nB (sb s) /\ firstn nT (st s') = firstn nT (st s).
@@ -166,25 +174,36 @@ Section Sep.
   (* primitives *)
   Lemma H_alloc v : HS (alloc v) (fun b => (nB <= b)%nat).
   Proof.
-    intros s (g1 & g2 & g3). unfold alloc, good, frame; cbn [fst snd sb st].
+    intros s (g1 & g2 & g3 & g4). unfold alloc, good, frame; cbn [fst snd sb st].
     split; [|split].
-    - split; [rewrite app_length; lia|]. split; [exact g2 | exact g3].
+    - split; [rewrite app_length; lia|]. split; [exact g2|]. split; [exact g3|].
+      intros t x Ht E. eapply valid_fields_mono; [|apply (g4 t x Ht E)]. cbn [sb]. rewrite app_length; lia.
     - split; [apply firstn_app_le; lia | reflexivity].
     - intros a E; inversion E; lia.
   Qed.
 
   Lemma H_newtab x : own x -> HS (newtab x) (fun t => (nT <= t)%nat).
   Proof.
-    intros Hx s (g1 & g2 & g3). unfold newtab, good, frame; cbn [fst snd sb st].
+    intros Hx s (g1 & g2 & g3 & g4). unfold newtab.
+    destruct (valid_fields s (tf x)) eqn:V; cbn [fst snd];
+      [|split; [repeat split; assumption | split; [apply frame_refl | intros a E; discriminate]]].
+    unfold good, frame; cbn [fst snd sb st].
     split; [|split].
-    - split; [exact g1|]. split; [rewrite app_length; lia|].
-      intros t y Ht E.
-      destruct (Nat.lt_ge_cases t (length (st s))) as [Hlt|Hge].
-      + rewrite nth_error_app1 in E by exact Hlt. eauto.
-      + rewrite nth_error_app2 in E by exact Hge.
-        destruct (t - length (st s))%nat as [|k]; cbn in E.
-        * inversion E; subst; exact Hx.
-        * destruct k; discriminate.
+    - split; [exact g1|]. split; [rewrite app_length; lia|]. split.
+      + intros t y Ht E.
+        destruct (Nat.lt_ge_cases t (length (st s))) as [Hlt|Hge].
+        * rewrite nth_error_app1 in E by exact Hlt. eauto.
+        * rewrite nth_error_app2 in E by exact Hge.
+          destruct (t - length (st s))%nat as [|k]; cbn in E.
+          -- inversion E; subst; exact Hx.
+          -- destruct k; discriminate.
+      + intros t y Ht E.
+        destruct (Nat.lt_ge_cases t (length (st s))) as [Hlt|Hge].
+        * rewrite nth_error_app1 in E by exact Hlt. exact (g4 t y Ht E).
+        * rewrite nth_error_app2 in E by exact Hge.
+          destruct (t - length (st s))%nat as [|k]; cbn in E.
+          -- inversion E; subst; exact V.
+          -- destruct k; discriminate.
     - split; [reflexivity | apply firstn_app_le; lia].
     - intros a E; inversion E; lia.
   Qed.
@@ -199,24 +218,29 @@ Section Sep.
   Proof.
     intros s Gs. unfold rdtab. destruct (nth_error (st s) t) eqn:E; cbn [fst snd];
       (split; [exact Gs | split; [apply frame_refl |]]).
-    - intros a Ea Ht; inversion Ea; subst. destruct Gs as (_ & _ & g3). eauto.
+    - intros a Ea Ht; inversion Ea; subst. destruct Gs as (_ & _ & g3 & _). eauto.
     - intros a Ea; discriminate.
   Qed.
 
   Lemma H_wrbuf b v : (nB <= b)%nat -> HS (wrbuf b v) (fun _ => True).
   Proof.
-    intros Hb s (g1 & g2 & g3). unfold wrbuf, good, frame; cbn [fst snd sb st].
+    intros Hb s (g1 & g2 & g3 & g4). unfold wrbuf, good, frame; cbn [fst snd sb st].
     split; [|split; [|auto]].
-    - split; [rewrite upd_length; exact g1|]. split; [exact g2 | exact g3].
+    - split; [rewrite upd_length; exact g1|]. split; [exact g2|]. split; [exact g3|].
+      intros t x Ht E. eapply valid_fields_mono; [|apply (g4 t x Ht E)]. cbn [sb]. rewrite upd_length; lia.
     - split; [apply firstn_upd; exact Hb | reflexivity].
   Qed.
 
   Lemma H_wrtab t x : (nT <= t)%nat -> own x -> HS (wrtab t x) (fun _ => True).
   Proof.
-    intros Ht Hx s (g1 & g2 & g3). unfold wrtab, good, frame; cbn [fst snd sb st].
+    intros Ht Hx s (g1 & g2 & g3 & g4). unfold wrtab.
+    destruct (valid_fields s (tf x)) eqn:V; cbn [fst snd];
+      [|split; [repeat split; assumption | split; [apply frame_refl | auto]]].
+    unfold good, frame; cbn [fst snd sb st].
     split; [|split; [|auto]].
-    - split; [exact g1|]. split; [rewrite upd_length; exact g2|].
-      intros u y Hu E. apply nth_error_upd_inv in E. destruct E as [[_ ->]|E]; eauto.
+    - split; [exact g1|]. split; [rewrite upd_length; exact g2|]. split.
+      + intros u y Hu E. apply nth_error_upd_inv in E. destruct E as [[_ ->]|E]; eauto.
+      + intros u y Hu E. apply nth_error_upd_inv in E. destruct E as [[_ ->]|E]; [exact V | exact (g4 u y Hu E)].
     - split; [reflexivity | apply firstn_upd; exact Ht].
   Qed.
 
@@ -272,7 +296,7 @@ Section Sep.
     unfold t_copy. eapply hb; [apply H_rdtab|]. intros x _; cbv beta zeta.
     eapply hb; [apply hmap with (Q := fun p => (nB <= snd p)%nat)|].
     - intros p _. eapply hb; [apply H_rdbuf|]. intros v _; cbv beta.
-      destruct (zlen v =? tlen x); [|apply hraise].
+      eapply hb; [apply hlift with (Q := fun _ => True); auto|]. intros v' _.
       eapply hb; [apply H_alloc|]. intros b Hb. apply hret; exact Hb.
     - intros fs Hfs; cbv beta. apply H_newtab. exact Hfs.
   Qed.
@@ -698,7 +722,7 @@ Proof.
   { intros l HF. unfold roots_ok. eapply Forall_impl; [|exact HF]. intros o ->; exact I. }
   split; [|repeat split; auto].
   split; [lia|]. split; [lia|].
-  intros t x Ht E. apply nth_error_Some_lt in E. lia.
+  split; intros t x Ht E; apply nth_error_Some_lt in E; lia.
 Qed.
 
 Theorem preserved_full : forall w0 ops,
@@ -825,7 +849,8 @@ Section Frame.
     (forall f, lookup f (tf x) <> None -> lookup f (tf x') <> None) ->
     rebinds_only t D s (fst (wrtab t x' s)).
   Proof.
-    intros E L K P. unfold wrtab; cbn [fst sb st]. split; [|split; [|split]]; auto.
+    intros E L K P. unfold wrtab. destruct (valid_fields s (tf x')); cbn [fst]; [|apply rb_refl].
+    cbn [fst sb st]. split; [|split; [|split]]; auto.
     - intros u Hu. apply nth_error_upd_other. congruence.
     - intros y Ey. assert (y = x) by congruence; subst y. exists x'.
       split; [|auto]. clear - E.
@@ -907,7 +932,7 @@ Theorem scramble_copy_untouched : forall m t s,
 Proof.
   intros m t s r.
   assert (Gs : good (length (sb s)) (length (st s)) s).
-  { split; [lia|]. split; [lia|]. intros u x Hu E. apply nth_error_Some_lt in E. lia. }
+  { split; [lia|]. split; [lia|]. split; intros u x Hu E; apply nth_error_Some_lt in E; lia. }
   destruct (H_scramble_data (length (sb s)) (length (st s)) m t true (or_introl eq_refl) s Gs)
     as (_ & F & Q).
   split; [|exact Q]. apply (frame_prefix _ _ _ _ F).
@@ -981,30 +1006,82 @@ Proof.
   destruct (Z.max_spec (rne k x) (ura_lo k lo)) as [[_ ->]|[_ ->]]; [exists a | exists n]; assumption.
 Qed.
 
+(* ---------------------------------------------------------------- RA written by the time based methods *)
+Lemma mbind_ok {A B} (m : M A) (f : A -> M B) s b :
+  snd (mbind m f s) = Ok b ->
+  exists a, snd (m s) = Ok a /\ mbind m f s = f a (fst (m s)).
+Proof.
+  unfold mbind. destruct (m s) as [s1 [a|e]]; cbn [fst snd]; intros E; [exists a; auto | discriminate].
+Qed.
+
+Lemma nth_error_upd_same {A} (l : list A) n v : (n < length l)%nat -> nth_error (upd l n v) n = Some v.
+Proof. revert n; induction l as [|a l IH]; intros [|n] H; cbn in *; try lia; auto. apply IH; lia. Qed.
+
+Lemma lookup_rebind_same f b fs : lookup f fs <> None -> lookup f (rebind f b fs) = Some b.
+Proof.
+  induction fs as [|[g c] r IH]; cbn; [congruence|].
+  destruct (Nat.eqb g f) eqn:E; cbn; rewrite E; [reflexivity | exact IH].
+Qed.
+Lemma lookup_app_same f b fs : lookup f fs = None -> lookup f (fs ++ [(f, b)]) = Some b.
+Proof.
+  induction fs as [|[g c] r IH]; cbn; [rewrite Nat.eqb_refl; reflexivity|].
+  destruct (Nat.eqb g f); [discriminate | exact IH].
+Qed.
+
+Lemma setitem_col t f b s vals :
+  nth_error (sb s) b = Some vals -> snd (t_setitem t f b s) = Ok tt ->
+  col (fst (t_setitem t f b s)) t f = Some vals.
+Proof.
+  intros Eb. unfold t_setitem, mbind, rdtab, rdbuf.
+  destruct (nth_error (st s) t) as [x|] eqn:E; cbn [fst snd]; [|discriminate].
+  rewrite Eb; cbn [fst snd].
+  assert (Ht : (t < length (st s))%nat) by (apply nth_error_Some_lt in E; exact E).
+  destruct (lookup f (tf x)) eqn:El.
+  - destruct (al_si_len_bad _ _); cbn [raise fst snd]; [discriminate|].
+    unfold wrtab. destruct (valid_fields _ _); cbn [fst snd]; [|discriminate]. intros _.
+    unfold col; cbn [fst sb st]. rewrite nth_error_upd_same by exact Ht. cbn [tf].
+    rewrite lookup_rebind_same by congruence. exact Eb.
+  - destruct (al_af_len_bad _ _); cbn [raise fst snd]; [discriminate|].
+    unfold wrtab. destruct (valid_fields _ _); cbn [fst snd]; [|discriminate]. intros _.
+    unfold col; cbn [fst sb st]. rewrite nth_error_upd_same by exact Ht. cbn [tf].
+    rewrite lookup_app_same by exact El. exact Eb.
+Qed.
+
+Lemma setitem_col_other t f g b s : f <> g -> col (fst (t_setitem t g b s)) t f = col s t f.
+Proof.
+  intros Hne. unfold t_setitem, mbind, rdtab, rdbuf.
+  destruct (nth_error (st s) t) as [x|] eqn:E; cbn [fst snd]; [|reflexivity].
+  destruct (nth_error (sb s) b) as [v|]; cbn [fst snd]; [|reflexivity].
+  assert (Ht : (t < length (st s))%nat) by (apply nth_error_Some_lt in E; exact E).
+  destruct (lookup g (tf x)).
+  - destruct (al_si_len_bad _ _); cbn [raise fst snd]; [reflexivity|].
+    unfold wrtab. destruct (valid_fields _ _); cbn [fst]; [|reflexivity].
+    unfold col; cbn [fst sb st]. rewrite nth_error_upd_same by exact Ht. rewrite E. cbn [tf].
+    rewrite lookup_rebind_other by exact Hne. reflexivity.
+  - destruct (al_af_len_bad _ _); cbn [raise fst snd]; [reflexivity|].
+    unfold wrtab. destruct (valid_fields _ _); cbn [fst]; [|reflexivity].
+    unfold col; cbn [fst sb st]. rewrite nth_error_upd_same by exact Ht. rewrite E. cbn [tf].
+    rewrite lookup_app_other by exact Hne. reflexivity.
+Qed.
+
+Lemma alloc_then_setitem_col t f v s :
+  snd ((mdo b <-- alloc v ;; t_setitem t f b) s) = Ok tt ->
+  col (fst ((mdo b <-- alloc v ;; t_setitem t f b) s)) t f = Some v.
+Proof.
+  unfold mbind, alloc. cbn [fst snd]. intros H.
+  apply setitem_col; [cbn [sb]; apply nth_error_snoc | exact H].
+Qed.
+
 (* the uniform scrambling writes exactly these values into `ra` *)
 Theorem uniform_ra_column : forall k lo hi draws t s,
   snd (scramble (ScrUniform k lo hi draws) t s) = Ok tt ->
   col (fst (scramble (ScrUniform k lo hi draws) t s)) t F_RA = Some (map (ura_value k lo hi) draws).
 Proof.
-  intros k lo hi draws t s. cbn [scramble]. unfold mbind, t_getitem, t_setitem, rdtab, rdbuf, alloc, mbind.
-  cbn [sb st fst snd].
-  destruct (nth_error (st s) t) as [x|] eqn:E; cbn [fst snd]; [|discriminate].
-  destruct (lookup F_RA (tf x)) as [b0|] eqn:El; cbn [fst snd ret raise]; [|discriminate].
-  cbn [sb st]. rewrite E.
-  cbn [sb st]. rewrite nth_error_snoc. cbn [fst snd]. rewrite El.
-  destruct (al_si_len_bad _ _); cbn [raise fst snd]; [discriminate|].
-  intros _. unfold wrtab, col; cbn [fst sb st].
-  assert (Ht : (t < length (st s))%nat) by (apply nth_error_Some_lt in E; exact E).
-  assert (Eu : nth_error (upd (st s) t (mkT (rebind F_RA (length (sb s)) (tf x)) (tlen x))) t
-               = Some (mkT (rebind F_RA (length (sb s)) (tf x)) (tlen x))).
-  { clear - Ht. revert Ht. generalize (st s) as l. induction t as [|n IH]; intros [|a l] Hl; cbn in *; try lia; auto.
-    apply IH; lia. }
-  rewrite Eu. cbn [tf].
-  assert (Er : lookup F_RA (rebind F_RA (length (sb s)) (tf x)) = Some (length (sb s))).
-  { clear - El. induction (tf x) as [|[g c] r IH]; cbn in *; [discriminate|].
-    destruct (Nat.eqb g F_RA) eqn:Eg; cbn; rewrite Eg; [reflexivity | apply IH; exact El]. }
-  rewrite Er. apply nth_error_snoc.
+  intros k lo hi draws t s Hok. cbn [scramble] in *.
+  apply mbind_ok in Hok as Hk; destruct Hk as (b0 & _ & E1); rewrite E1 in *; clear E1.
+  apply alloc_then_setitem_col. exact Hok.
 Qed.
+
 
 Theorem uniform_ra_in_range : forall k lo hi g draws t s,
   0 <= k -> lo <= g * 2 ^ k < hi ->
@@ -1079,68 +1156,6 @@ Proof.
   apply K_seas_mask.
 Qed.
 
-(* ---------------------------------------------------------------- RA written by the time based methods *)
-Lemma mbind_ok {A B} (m : M A) (f : A -> M B) s b :
-  snd (mbind m f s) = Ok b ->
-  exists a, snd (m s) = Ok a /\ mbind m f s = f a (fst (m s)).
-Proof.
-  unfold mbind. destruct (m s) as [s1 [a|e]]; cbn [fst snd]; intros E; [exists a; auto | discriminate].
-Qed.
-
-Lemma nth_error_upd_same {A} (l : list A) n v : (n < length l)%nat -> nth_error (upd l n v) n = Some v.
-Proof. revert n; induction l as [|a l IH]; intros [|n] H; cbn in *; try lia; auto. apply IH; lia. Qed.
-
-Lemma lookup_rebind_same f b fs : lookup f fs <> None -> lookup f (rebind f b fs) = Some b.
-Proof.
-  induction fs as [|[g c] r IH]; cbn; [congruence|].
-  destruct (Nat.eqb g f) eqn:E; cbn; rewrite E; [reflexivity | exact IH].
-Qed.
-Lemma lookup_app_same f b fs : lookup f fs = None -> lookup f (fs ++ [(f, b)]) = Some b.
-Proof.
-  induction fs as [|[g c] r IH]; cbn; [rewrite Nat.eqb_refl; reflexivity|].
-  destruct (Nat.eqb g f); [discriminate | exact IH].
-Qed.
-
-Lemma setitem_col t f b s vals :
-  nth_error (sb s) b = Some vals -> snd (t_setitem t f b s) = Ok tt ->
-  col (fst (t_setitem t f b s)) t f = Some vals.
-Proof.
-  intros Eb. unfold t_setitem, mbind, rdtab, rdbuf.
-  destruct (nth_error (st s) t) as [x|] eqn:E; cbn [fst snd]; [|discriminate].
-  rewrite Eb; cbn [fst snd].
-  assert (Ht : (t < length (st s))%nat) by (apply nth_error_Some_lt in E; exact E).
-  destruct (lookup f (tf x)) eqn:El.
-  - destruct (al_si_len_bad _ _); cbn [raise fst snd]; [discriminate|]. intros _.
-    unfold wrtab, col; cbn [fst sb st]. rewrite nth_error_upd_same by exact Ht. cbn [tf].
-    rewrite lookup_rebind_same by congruence. exact Eb.
-  - destruct (al_af_len_bad _ _); cbn [raise fst snd]; [discriminate|]. intros _.
-    unfold wrtab, col; cbn [fst sb st]. rewrite nth_error_upd_same by exact Ht. cbn [tf].
-    rewrite lookup_app_same by exact El. exact Eb.
-Qed.
-
-Lemma setitem_col_other t f g b s : f <> g -> col (fst (t_setitem t g b s)) t f = col s t f.
-Proof.
-  intros Hne. unfold t_setitem, mbind, rdtab, rdbuf.
-  destruct (nth_error (st s) t) as [x|] eqn:E; cbn [fst snd]; [|reflexivity].
-  destruct (nth_error (sb s) b) as [v|]; cbn [fst snd]; [|reflexivity].
-  assert (Ht : (t < length (st s))%nat) by (apply nth_error_Some_lt in E; exact E).
-  destruct (lookup g (tf x)).
-  - destruct (al_si_len_bad _ _); cbn [raise fst snd]; [reflexivity|].
-    unfold wrtab, col; cbn [fst sb st]. rewrite nth_error_upd_same by exact Ht. rewrite E. cbn [tf].
-    rewrite lookup_rebind_other by exact Hne. reflexivity.
-  - destruct (al_af_len_bad _ _); cbn [raise fst snd]; [reflexivity|].
-    unfold wrtab, col; cbn [fst sb st]. rewrite nth_error_upd_same by exact Ht. rewrite E. cbn [tf].
-    rewrite lookup_app_other by exact Hne. reflexivity.
-Qed.
-
-Lemma alloc_then_setitem_col t f v s :
-  snd ((mdo b <-- alloc v ;; t_setitem t f b) s) = Ok tt ->
-  col (fst ((mdo b <-- alloc v ;; t_setitem t f b) s)) t f = Some v.
-Proof.
-  unfold mbind, alloc. cbn [fst snd]. intros H.
-  apply setitem_col; [cbn [sb]; apply nth_error_snoc | exact H].
-Qed.
-
 (* I3TimeScramblingMethod / I3SeasonalVariationTimeScramblingMethod / TimeScramblingMethod: the column written to
    `ra` is the transform result itself (no narrowing afterwards) *)
 Theorem time_ra_column : forall m t s,
@@ -1190,3 +1205,247 @@ Proof.
   destruct m as [|k l h draws|times ras|times ras|times ras decs]; try exact I;
     intros Hr; exists ras; auto.
 Qed.
+
+(* ================================================================ freshness of everything that is generated *)
+Lemma good_at_top s : good (length (sb s)) (length (st s)) s.
+Proof. split; [lia|]. split; [lia|]. split; intros t x Ht E; apply nth_error_Some_lt in E; lia. Qed.
+
+Lemma top_run {A} (m : M A) (Q : A -> Prop) s :
+  HS (length (sb s)) (length (st s)) m Q ->
+  old_untouched s (fst (m s)) /\ good (length (sb s)) (length (st s)) (fst (m s)) /\
+  forall a, snd (m s) = Ok a -> Q a.
+Proof.
+  intros Hm. destruct (Hm s (good_at_top s)) as (G1 & F1 & Q1).
+  split; [apply (frame_prefix _ _ _ _ F1)|]. split; assumption.
+Qed.
+
+Lemma good_fresh nB nT s0 s t :
+  nB = length (sb s0) -> nT = length (st s0) -> good nB nT s -> (nT <= t)%nat -> fresh_table s0 s t.
+Proof.
+  intros -> -> (_ & _ & g3 & _) Ht. split; [exact Ht|]. intros x E. exact (g3 t x Ht E).
+Qed.
+
+(* get_selection / copy allocate for EVERY index kind and keep-list: nothing that existed is touched, the result is a
+   new object whose columns are all new arrays (single row, contiguous rows, empty, mask, negative indices alike) *)
+Theorem select_allocates : forall t sl s,
+  old_untouched s (fst (t_select t sl s)) /\
+  forall t', snd (t_select t sl s) = Ok t' -> fresh_table s (fst (t_select t sl s)) t'.
+Proof.
+  intros t sl s. destruct (top_run (t_select t sl) _ s (H_select _ _ t sl)) as (O & G & Q).
+  split; [exact O|]. intros t' E. eapply good_fresh; eauto.
+Qed.
+
+Theorem copy_allocates : forall t keep s,
+  old_untouched s (fst (t_copy t keep s)) /\
+  forall t', snd (t_copy t keep s) = Ok t' -> fresh_table s (fst (t_copy t keep s)) t'.
+Proof.
+  intros t keep s. destruct (top_run (t_copy t keep) _ s (H_copy _ _ t keep)) as (O & G & Q).
+  split; [exact O|]. intros t' E. eapply good_fresh; eauto.
+Qed.
+
+(* signal generation (selection from mc, post-sampling processing with in-place narrowing writes, redraw, fill):
+   whatever is written, it is written into new arrays; mc is not touched *)
+Theorem gen_signal_allocates : forall mc n fill gs s,
+  old_untouched s (fst (gen_signal mc n fill gs s)) /\
+  forall t', snd (gen_signal mc n fill gs s) = Ok t' -> fresh_table s (fst (gen_signal mc n fill gs s)) t'.
+Proof.
+  intros mc n fill gs s.
+  destruct (top_run (gen_signal mc n fill gs) _ s (H_gen_signal _ _ mc n fill gs)) as (O & G & Q).
+  split; [exact O|]. intros t' E. eapply good_fresh; eauto.
+Qed.
+
+Lemma valid_fields_lt s fs p : valid_fields s fs = true -> In p fs -> (snd p < length (sb s))%nat.
+Proof.
+  unfold valid_fields. rewrite forallb_forall. intros H Hp. apply Nat.ltb_lt. exact (H p Hp).
+Qed.
+
+Lemma on_store_top {A} (w : world) (m : M A) (k : world -> A -> world) (Q : A -> Prop) :
+  HS (length (sb (w_store w))) (length (st (w_store w))) m Q ->
+  (forall w' a, w_store (k w' a) = w_store w') ->
+  let r := on_store w m k in
+  old_untouched (w_store w) (w_store (fst r)) /\
+  good (length (sb (w_store w))) (length (st (w_store w))) (w_store (fst r)) /\
+  (snd r = Ok tt -> exists a, snd (m (w_store w)) = Ok a /\ Q a /\
+                              fst r = k (mkW (fst (m (w_store w))) (w_exp w) (w_mc w) (w_cache w) (w_ev w) (w_sig w) (w_tdm w)) a).
+Proof.
+  intros Hm Hk r. subst r. unfold on_store.
+  destruct (top_run m Q (w_store w) Hm) as (O & G & Qa).
+  destruct (m (w_store w)) as [s' [a|e]]; cbn [fst snd] in *.
+  - rewrite Hk. cbn. split; [exact O|]. split; [exact G|]. intros _. exists a. auto.
+  - split; [exact O|]. split; [exact G|]. intros E; discriminate.
+Qed.
+
+Lemma getroot_upd_same l i o : (i < length l)%nat -> getroot (setroot l i o) i = o.
+Proof. intros H. unfold getroot, setroot. rewrite nth_error_upd_same by exact H. reflexivity. Qed.
+
+(* the three background generation methods and the signal generator: on success the generated table is a new
+   object made of new arrays only - it aliases nothing that existed before the call (exp, mc, earlier events, trial
+   data, an existing cache) *)
+Theorem generated_fresh : forall o w,
+  snd (step o w) = Ok tt ->
+  match o with
+  | GenBkgFixed i _ | GenBkgMC i _ _ _ _ _ | GenBkgComp i _ _ _ _ _ _ =>
+      (i < length (w_ev w))%nat ->
+      exists t, getroot (w_ev (fst (step o w))) i = Some t /\
+                fresh_table (w_store w) (w_store (fst (step o w))) t
+  | GenSig i _ _ _ =>
+      (i < length (w_sig w))%nat ->
+      exists t, getroot (w_sig (fst (step o w))) i = Some t /\
+                fresh_table (w_store w) (w_store (fst (step o w))) t
+  | _ => True
+  end.
+Proof.
+  intros o w Hok.
+  destruct o as [i m|i cfgf keepmc presel idx m|i cfgf keepmc m comps presel idx|i n fill gs|i|i|i l|i es|i srt l|i|i|i|i|i masks|i idx];
+    try exact I; cbn [step] in *; intros Hi.
+  - destruct (nth_error (w_exp w) i) as [e|]; [|discriminate].
+    destruct (on_store_top w (scramble_data m e true) (fun w' t => set_ev w' i (Some t)) _
+                (H_scramble_data _ _ m e true (or_introl eq_refl)) (fun _ _ => eq_refl)) as (O & G & R).
+    destruct (R Hok) as (t & _ & Qt & Ew). rewrite Ew. exists t. split.
+    + cbn. apply getroot_upd_same; exact Hi.
+    + cbn [set_ev w_store]. rewrite Ew in G. eapply good_fresh; eauto.
+  - destruct (nth_error (w_mc w) i) as [mc|]; [|discriminate].
+    set (r1 := match getroot (w_cache w) i with Some c => (w, Ok tt) | None => _ end) in *.
+    assert (T1 : old_untouched (w_store w) (w_store (fst r1)) /\ w_ev (fst r1) = w_ev w).
+    { subst r1. destruct (getroot (w_cache w) i).
+      - split; [split; auto | reflexivity].
+      - match goal with |- context [on_store w ?m ?k] =>
+          destruct (on_store_top w m k (fun t => (length (st (w_store w)) <= t)%nat)) as (O & G & R) end.
+        + eapply hb; [apply H_exp_fields|]. intros ef _.
+          eapply hb; [apply H_copy|]. intros c Hc. apply H_presel; exact Hc.
+        + reflexivity.
+        + split; [exact O|]. unfold on_store.
+          destruct ((mdo ef <-- exp_fields w i;; mdo c <-- t_copy mc (Some (cfgf ++ ef ++ keepmc));; presel_apply c presel) (w_store w))
+            as [s' [a|e]]; reflexivity. }
+    destruct r1 as [w1 [u|e]]; cbn [fst] in *; [|discriminate].
+    destruct T1 as (O1 & Eev).
+    destruct (getroot (w_cache w1) i) as [c|]; [|discriminate].
+    match goal with H : snd (on_store w1 ?m ?k) = Ok tt |- _ =>
+      destruct (on_store_top w1 m k (fun t => (length (st (w_store w1)) <= t)%nat)) as (O & G & R) end.
+    + eapply hb; [apply H_select|]. intros b Hb.
+      eapply hb; [apply H_scramble_data; right; exact Hb|]. intros b' Hb'.
+      eapply hb; [apply H_exp_fields|]. intros ef _.
+      eapply hb; [apply H_tidy; exact Hb'|]. intros _ _. apply hret; exact Hb'.
+    + reflexivity.
+    + destruct (R Hok) as (t & _ & Qt & Ew). rewrite Ew. exists t. split.
+      * cbn. apply getroot_upd_same. rewrite Eev. exact Hi.
+      * cbn [set_ev w_store]. rewrite Ew in G. cbn [set_ev w_store] in G.
+        destruct O1 as (OB1 & OT1).
+        assert (L1 : (length (st (w_store w)) <= length (st (w_store w1)))%nat).
+        { destruct (Nat.le_gt_cases (length (st (w_store w))) (length (st (w_store w1)))) as [H|H]; [exact H|].
+          exfalso. assert (Hlt : (length (st (w_store w1)) < length (st (w_store w)))%nat) by lia.
+          pose proof (OT1 _ Hlt) as E1. rewrite (proj2 (nth_error_None _ _)) in E1 by lia.
+          symmetry in E1. apply nth_error_None in E1. lia. }
+        assert (L2 : (length (sb (w_store w)) <= length (sb (w_store w1)))%nat).
+        { destruct (Nat.le_gt_cases (length (sb (w_store w))) (length (sb (w_store w1)))) as [H|H]; [exact H|].
+          exfalso. assert (Hlt : (length (sb (w_store w1)) < length (sb (w_store w)))%nat) by lia.
+          pose proof (OB1 _ Hlt) as E1. rewrite (proj2 (nth_error_None _ _)) in E1 by lia.
+          symmetry in E1. apply nth_error_None in E1. lia. }
+        destruct G as (_ & _ & g3 & _). split; [lia|].
+        intros x Ex. eapply Forall_impl; [|apply (g3 t x Qt Ex)]. intros p Hp; cbn beta in *. lia.
+  - destruct (nth_error (w_mc w) i) as [mc|]; [|discriminate].
+    match goal with H : snd (on_store w ?m ?k) = Ok tt |- _ =>
+      destruct (on_store_top w m k (fun t => (length (st (w_store w)) <= t)%nat)) as (O & G & R) end.
+    + eapply hb; [apply H_exp_fields|]. intros ef _.
+      eapply hb; [apply H_copy|]. intros d Hd.
+      eapply hb; [apply H_scramble_data; right; exact Hd|]. intros d1 Hd1.
+      eapply hb; [apply H_set_fields; exact Hd1|]. intros _ _.
+      eapply hb; [apply H_presel; exact Hd1|]. intros d2 Hd2.
+      eapply hb; [apply H_select|]. intros b Hb.
+      eapply hb; [apply H_tidy; exact Hb|]. intros _ _. apply hret; exact Hb.
+    + reflexivity.
+    + destruct (R Hok) as (t & _ & Qt & Ew). rewrite Ew. exists t. split.
+      * cbn. apply getroot_upd_same; exact Hi.
+      * cbn [set_ev w_store]. rewrite Ew in G. eapply good_fresh; eauto.
+  - destruct (nth_error (w_mc w) i) as [mc|]; [|discriminate].
+    destruct (on_store_top w (gen_signal mc n fill gs) (fun w' t => set_sig w' i (Some t)) _
+                (H_gen_signal _ _ mc n fill gs) (fun _ _ => eq_refl)) as (O & G & R).
+    destruct (R Hok) as (t & _ & Qt & Ew). rewrite Ew. exists t. split.
+    + cbn. apply getroot_upd_same; exact Hi.
+    + cbn [set_sig w_store]. rewrite Ew in G. eapply good_fresh; eauto.
+Qed.
+
+(* MCDataSamplingBkgGenMethod: the generated events never alias the per-dataset cache (_cache_mc), whether the cache
+   existed before the call or was created by it - at any point of any history (Inv holds along every history) *)
+Theorem mc_generated_disjoint_from_cache : forall nB nT w i cfgf keepmc presel idx m,
+  Inv nB nT w -> (i < length (w_ev w))%nat ->
+  snd (step (GenBkgMC i cfgf keepmc presel idx m) w) = Ok tt ->
+  let w' := fst (step (GenBkgMC i cfgf keepmc presel idx m) w) in
+  exists t c, getroot (w_ev w') i = Some t /\ getroot (w_cache w') i = Some c /\
+              disjoint_tables (w_store w') t c.
+Proof.
+  intros nB nT w i cfgf keepmc presel idx m Iw Hi Hok w'. subst w'. cbn [step] in *.
+  destruct (nth_error (w_mc w) i) as [mc|]; [|discriminate].
+  set (r1 := match getroot (w_cache w) i with Some c => (w, Ok tt) | None => _ end) in *.
+  assert (T1 : Tr nB nT w (fst r1) /\ w_ev (fst r1) = w_ev w).
+  { subst r1. destruct (getroot (w_cache w) i); [split; [apply Tr_refl; exact Iw | reflexivity]|].
+    split.
+    - eapply on_store_Tr with (Q := fun t => (nT <= t)%nat); [exact Iw | |].
+      + eapply hb; [apply H_exp_fields|]. intros ef _.
+        eapply hb; [apply H_copy|]. intros c Hc. apply H_presel; exact Hc.
+      + intros w2 c Iw2 Hc. apply set_cache_inv; assumption.
+    - unfold on_store.
+      destruct ((mdo ef <-- exp_fields w i;; mdo c <-- t_copy mc (Some (cfgf ++ ef ++ keepmc));; presel_apply c presel) (w_store w))
+        as [s' [a|e]]; reflexivity. }
+  destruct r1 as [w1 [u|e]]; cbn [fst] in *; [|discriminate].
+  destruct T1 as ((I1 & _) & Eev).
+  destruct (getroot (w_cache w1) i) as [c|] eqn:Ec; [|discriminate].
+  pose proof I1 as (G1 & RC & _).
+  pose proof (getroot_ok nT _ _ _ RC Ec) as Hc.
+  match type of Hok with snd (on_store w1 ?m ?k) = Ok tt =>
+    destruct (on_store_top w1 m k (fun t => (length (st (w_store w1)) <= t)%nat)) as (O & G & R) end.
+  - eapply hb; [apply H_select|]. intros b Hb.
+    eapply hb; [apply H_scramble_data; right; exact Hb|]. intros b' Hb'.
+    eapply hb; [apply H_exp_fields|]. intros ef _.
+    eapply hb; [apply H_tidy; exact Hb'|]. intros _ _. apply hret; exact Hb'.
+  - reflexivity.
+  - destruct (R Hok) as (t & Em & Qt & Ew).
+    (* the cache object exists in the store the selection was made from *)
+    apply mbind_ok in Em as Hk. destruct Hk as (b & Esel & _).
+    unfold t_select in Esel. apply mbind_ok in Esel as Hk. destruct Hk as (y & Ey & _).
+    unfold rdtab in Ey. destruct (nth_error (st (w_store w1)) c) as [y'|] eqn:Ecy; [|discriminate].
+    cbn in Ey. inversion Ey; subst y'. clear Ey.
+    assert (Hclt : (c < length (st (w_store w1)))%nat) by (apply nth_error_Some_lt in Ecy; exact Ecy).
+    destruct G1 as (_ & _ & _ & g4). pose proof (g4 c y Hc Ecy) as Vy.
+    rewrite Ew in *. exists t, c. split; [cbn; apply getroot_upd_same; rewrite Eev; exact Hi|].
+    split; [cbn; exact Ec|]. cbn [set_ev w_store] in *.
+    split; [lia|]. intros x y2 Ex Ey2 p q Hp Hq.
+    destruct O as (_ & OT). rewrite (OT c Hclt), Ecy in Ey2. inversion Ey2; subst y2.
+    destruct G as (_ & _ & g3 & _). pose proof (g3 t x Qt Ex) as Fx.
+    unfold own, ownf in Fx. rewrite Forall_forall in Fx. specialize (Fx p Hp). cbn beta in Fx.
+    pose proof (valid_fields_lt _ _ q Vy Hq) as Hq'. intros Heq.
+    pose proof (eq_ind _ (fun z => (length (sb (w_store w1)) <= z)%nat) Fx _ Heq) as Fq.
+    exact (Nat.lt_irrefl _ (Nat.lt_le_trans _ _ _ Hq' Fq)).
+Qed.
+
+(* merge / injection (np.append): afterwards every column of the events table is a new array *)
+Theorem append_fresh_columns : forall t src s,
+  snd (t_append t src s) = Ok tt ->
+  forall x, nth_error (st (fst (t_append t src s))) t = Some x ->
+            Forall (fun p => (length (sb s) <= snd p)%nat) (tf x).
+Proof.
+  intros t src s Hok x Ex. unfold t_append in *.
+  apply mbind_ok in Hok as Hk; destruct Hk as (x0 & E0 & E1); rewrite E1 in *; clear E1.
+  apply mbind_ok in Hok as Hk; destruct Hk as (y0 & E0' & E1); rewrite E1 in *; clear E1.
+  assert (S0 : fst (rdtab src (fst (rdtab t s))) = s).
+  { unfold rdtab. destruct (nth_error (st s) t); cbn; destruct (nth_error (st s) src); reflexivity. }
+  rewrite S0 in *.
+  destruct (forallb _ _); [|discriminate].
+  apply mbind_ok in Hok as Hk; destruct Hk as (fs & Efs & E1); rewrite E1 in *; clear E1.
+  match type of Efs with snd (mapMM ?f ?l s) = Ok fs =>
+    destruct (top_run (mapMM f l) (Forall (fun p => (length (sb s) <= snd p)%nat)) s) as (O & G & Q) end.
+  { apply hmap. intros p _. eapply hb; [apply H_rdbuf|]. intros v _.
+    eapply hb; [apply H_getitem|]. intros bs _.
+    eapply hb; [apply H_rdbuf|]. intros vs _.
+    eapply hb; [apply H_alloc|]. intros b Hb. apply hret; exact Hb. }
+  specialize (Q fs Efs).
+  unfold wrtab in Hok, Ex. destruct (valid_fields _ _); cbn [fst snd] in *; [|discriminate].
+  cbn [st] in Ex.
+  assert (Hlt := nth_error_Some_lt _ _ _ Ex). rewrite upd_length in Hlt.
+  rewrite nth_error_upd_same in Ex by exact Hlt. inversion Ex; subst x. exact Q.
+Qed.
+
+Lemma K_storage_shapes : storage_shapes_pinned = true.
+Proof. reflexivity. Qed.
+Lemma K_gs_take : forall x, gs_take x = x.
+Proof. reflexivity. Qed.
